@@ -434,8 +434,10 @@ def run_property(modname, tier, seed, only_subs=None, procs=None):
     for line in out:
         print(line)
     if errors:
-        for e in errors:
-            print("HARNESS-ERROR %s" % e, file=sys.stderr)
+        for e in errors[:3]:
+            print("HARNESS-ERROR %s" % e[:3000], file=sys.stderr)
+        if len(errors) > 3:
+            print("HARNESS-ERROR ... and %d more shard errors" % (len(errors) - 3), file=sys.stderr)
         return 2
     if vio_list:
         return 1
